@@ -125,6 +125,25 @@ def check_mol(smi):
         if oe is None or canon_noh(oe) != want or total_h(oe) != want_h:
             fails.append(Fail("explicit_h_molecule", f"{s}: explicit-H graph writes {oe}", f"{want} with {want_h} H", key_extra=f"root{r}"))
             break
+        # partial expansion: hydrogens of a chosen subset of atoms only (as the reactor does for matched atoms)
+        withh = [v for v, d in g.nodes(data=True) if d.get("hcount", 0) > 0]
+        subsets = [[v] for v in withh] + ([withh[:2]] if len(withh) > 1 else [])
+        if TIER[0] == "quick":
+            subsets = subsets[:2] + subsets[-2:]
+        bad = False
+        for sub in subsets:
+            gp = h_to_explicit(g, list(sub))
+            n += 1
+            nh = sum(1 for _, d in gp.nodes(data=True) if d.get("element") == "H") - sum(1 for _, d in g.nodes(data=True) if d.get("element") == "H")
+            exp_nh = sum(g.nodes[v]["hcount"] for v in sub)
+            heavy_same = all(gp.nodes[v].get("element") == g.nodes[v].get("element") for v in g.nodes)
+            op = graph_to_smi(gp)
+            if nh != exp_nh or not heavy_same or op is None or canon_noh(op) != want or total_h(op) != want_h or graph_view(h_to_implicit(gp)) != graph_view(g):
+                fails.append(Fail("partial_explicit_h", f"{s}: expanding atoms {sub} gives {op} ({nh} new H atoms)", f"{want} with {want_h} H, {exp_nh} new H atoms, restorable", key_extra=f"root{r}"))
+                bad = True
+                break
+        if bad:
+            break
         # implicit direction on a graph that had explicit hydrogens from the start
         oi = graph_to_smi(gi)
         if oi is None or canon_noh(oi) != want or total_h(oi) != want_h:
